@@ -466,7 +466,7 @@ def deletion_case(ctx, objs, k):
         return ctx.inconclusive("preparatory link failed")
     time.sleep(0.3)       # a forked preparatory link finishes its own clean-up in the background
     before = set(os.listdir(sb))
-    s = faults.PauseSession([*a2, *extra], sb, ["verif: delete old output"], timeout=120)
+    s = faults.PauseSession([*a2, *extra], sb, ["verif: delete old output#*"], timeout=120)
     s.start()
     hit = s.wait(timeout=60)
     if hit is None:
